@@ -195,7 +195,7 @@ CONC_APIS = [
 ]
 STREAM_APIS = [("stream", False), ("stream_with", True)]
 CONC_USES = ["assert_send", "scoped_thread", "spawn_static", "nested_send"]
-STREAM_USES = ["assert_send", "fnref_to_thread", "scoped_thread"]
+STREAM_USES = ["assert_send", "fnref_to_thread", "scoped_thread", "held_across_await"]
 
 
 ERRS = ["String", "ErrNS"]
@@ -270,6 +270,21 @@ def gen_stream(api, with_opts, ftype, use):
                 "            drop(tx);\n"
                 "        });\n"
                 "    });") % (fty(ftype), call)
+        run = True
+    elif use == "held_across_await":
+        # a FnRef kept alive across an await inside a future that must be Send
+        # (what a Send-bounded executor or a scoped worker thread demands)
+        body = ("    let s = %s;\n"
+                "    let fut = async move {\n"
+                "        let mut s = std::pin::pin!(s);\n"
+                "        while let Some(r) = s.next().await {\n"
+                "            let _ = r.call();\n"
+                "            std::future::ready(()).await;\n"
+                "            drop(r);\n"
+                "        }\n"
+                "    };\n"
+                "    assert_send(&fut);\n"
+                "    std::thread::scope(|sc| { sc.spawn(move || { block_on(fut); }); });") % call
         run = True
     else:
         body = ("    let s = %s;\n"
@@ -433,6 +448,10 @@ def main():
                     bor = [x for x in lst if x[0]["ftype"] == "FBorrow"]
                     if bor:
                         chosen.append(bor[(SEED * 5 + k * 3) % len(bor)])
+                    # and (streams) one that keeps a FnRef alive across an await in a Send future, with a borrowing function type
+                    held = [x for x in lst if x[0].get("use") == "held_across_await" and x[0]["ftype"] == "FBorrow"]
+                    if held:
+                        chosen.append(held[(SEED + k) % len(held)])
                     # and one that awaits the run inside a Send async block with a combinator future
                     nest = [x for x in lst if x[0].get("use") == "nested_send" and x[0].get("fut") == "map_ref"]
                     if nest:
